@@ -189,8 +189,12 @@ for _pid in ("C01", "C02", "C07", "C18"):
 def g_c03(tier, seed):
     cnt = []
     fails = rt.rt_c03(tier, count=cnt)
+    import treefuzz
+
+    fails += treefuzz.rt_transformed_trees(tier, count=cnt)
+    cnt = [sum(cnt)]
     return dict(evaluations=cnt[0] if cnt else 0, distinct_nontrivial=cnt[0] if cnt else 0,
-                rule="real Transformed distributions: hand-built (conditional base / conditional bijection mixes) and the buildable flow factories x invert x conditional, perturbed parameters, 2 keys each; the three evaluation paths compared with the public base/bijection methods; merge_transforms at nesting depth 2-4 with non-commuting bijections",
+                rule="real Transformed distributions: hand-built (conditional base / conditional bijection mixes) and the buildable flow factories x invert x conditional, perturbed parameters, 2 keys each; the three evaluation paths compared with the public base/bijection methods; merge_transforms at nesting depth 2-4 with non-commuting bijections; Transformed(base, random bijection expression tree) (30 quick / 150 thorough, fixed seeds): the three evaluation paths agree, sample shapes, batched == unbatched",
                 samples=["coupling_flow(invert=True, cond_dim=3) perturbed"], failures=fails[:5], errors=[])
 
 
